@@ -2,7 +2,7 @@
     Statements only; proofs in C17/Proofs.v.  The text level (Request.String()
     against the model's renderer, and parse . render . parse evaluated on
     generated stores in both parse modes) is the correspondence stream c17. *)
-From LMD Require Import QE.Engine QE.Render C17.Proofs Gen.Schema.
+From LMD Require Import QE.Engine QE.Render C17.Proofs C17.TextProofs Gen.Schema.
 
 (** every operator's serialised spelling parses back to the same operator, or -
     for the internal substring operators, whose text the serialiser quotes - to
@@ -22,6 +22,42 @@ Proof. exact emit_run. Qed.
 Theorem C17_forest_roundtrip :
   forall fs st, Forall wf_filt fs -> run_stack (flat_map emit fs) st = Some (st ++ fs).
 Proof. exact emit_run_all. Qed.
+
+(** Text level of the structural lines: numbers print and parse back; the
+    `And:`/`Or:`/`Negate:` lines (and their Stats spellings) the serialiser writes
+    are parsed by the real header parser exactly as the abstract stack machine of
+    the tree theorem steps; Limit / Offset lines set the field. *)
+Theorem C17_number_roundtrip : forall z, parse_int (show_Z z) = Some z.
+Proof. exact parse_int_show_Z. Qed.
+
+Theorem C17_group_line :
+  forall opt r g n,
+    parse_header opt r (gop_text g ++ s ": " ++ show_Z (Z.of_nat n)) =
+    res_of_stack r (step_item (Some (rq_filter r)) (IGroup g n)).
+Proof. exact group_line_parses. Qed.
+
+Theorem C17_negate_line :
+  forall opt r, parse_header opt r (s "Negate:") = res_of_stack r (step_item (Some (rq_filter r)) INegate).
+Proof. exact negate_line_parses. Qed.
+
+Theorem C17_stats_group_line :
+  forall opt r g n st, (0 < n)%nat -> rq_stats r = map SCounter st ->
+    parse_header opt r (s "Stats" ++ gop_text g ++ s ": " ++ show_Z (Z.of_nat n)) =
+    res_of_stats_stack r (step_item (Some st) (IGroup g n)).
+Proof. exact stats_group_line_machine. Qed.
+
+Theorem C17_stats_negate_line :
+  forall opt r st, rq_stats r = map SCounter st ->
+    parse_header opt r (s "StatsNegate:") = res_of_stats_stack r (step_item (Some st) INegate).
+Proof. exact stats_negate_line_machine. Qed.
+
+Theorem C17_limit_line :
+  forall opt r z, (0 <= z)%Z ->
+    parse_header opt r (s "Limit: " ++ show_Z z) =
+    Ok (mkReq (rq_table r) (rq_columns r) (rq_filter r) (rq_stats r) (rq_sort r) (Some z) (rq_offset r)
+              (rq_backends r) (rq_format r) (rq_colheaders r) (rq_fixed16 r) (rq_keepalive r)
+              (rq_authuser r) (rq_numfilter r)).
+Proof. exact limit_line_parses. Qed.
 
 (** non-vacuity: the serialised text of an optimised request parses again and selects the same rows *)
 Example C17_example :
@@ -45,3 +81,9 @@ Proof. vm_compute. repeat split. Qed.
 Print Assumptions C17_operator_roundtrip.
 Print Assumptions C17_tree_roundtrip.
 Print Assumptions C17_forest_roundtrip.
+Print Assumptions C17_number_roundtrip.
+Print Assumptions C17_group_line.
+Print Assumptions C17_negate_line.
+Print Assumptions C17_stats_group_line.
+Print Assumptions C17_stats_negate_line.
+Print Assumptions C17_limit_line.
